@@ -105,6 +105,25 @@ func TestVerifReplay(t *testing.T) {
 			}
 		}
 	}
+	// first concurrent use of freshly constructed separator functions (anything computed lazily on first use shows here)
+	for round := 0; round < 20; round++ {
+		fresh := NewSFFunction(CharRecipe{Length: 2, Allow: Digits})
+		start := make(chan struct{})
+		var wg3 sync.WaitGroup
+		for g := 0; g < 8; g++ {
+			wg3.Add(1)
+			go func() {
+				defer wg3.Done()
+				<-start
+				s, e := fresh()
+				if len(s) != 2 || e < 6.6 || e > 6.7 {
+					report(map[string]interface{}{"shared": "NewSFFunction(CharRecipe{Length:2, Allow:Digits}), first use from 8 goroutines at once"}, vSprint("separator ", s, " entropy ", e), "two digits, entropy 2*log2(10)")
+				}
+			}()
+		}
+		close(start)
+		wg3.Wait()
+	}
 	var wg sync.WaitGroup
 	for g := 0; g < 8; g++ {
 		wg.Add(1)
